@@ -761,6 +761,19 @@ def check_property(prop_id, tier, spec, seed):
                     violations.append((s, desc, rpath))
             else:
                 tool_errors.append("%s: ENCODING-MISMATCH: CBMC counterexample for '%s' does not reproduce natively (values %s; native rc=%s out=%s)" % (s["name"], desc, vals[:12], nr["rc"], nr["out"][-300:]))
+    # const-API reachability (C20): const member functions of the named classes defined in the linked units vs. those that
+    # survive dead-code elimination from the harness entry (= are reachable from the harness)
+    const_cov = None
+    for j in jobs:
+        if j.get("const_coverage") and not isinstance(built.get(j["name"]), Exception):
+            jd = built[j["name"]]
+            pat = re.compile(r"_ZNK\d+OpenVolumeMesh(?:" + "|".join(j["const_coverage"]) + r")")
+            def syms(bc):
+                r = run(["llvm-nm-14", "--defined-only", bc])
+                return set(l.split()[-1] for l in r.stdout.splitlines() if l.strip() and pat.search(l.split()[-1]))
+            allc = syms(os.path.join(jd, "all.bc")); reach = syms(os.path.join(jd, "red.bc"))
+            const_cov = dict(classes=j["const_coverage"], const_members_in_linked_units=len(allc), reachable_from_harness=len(reach),
+                             unreached=sorted(allc - reach)[:40])
     wall = time.time() - t0
     # ---------------- evidence
     ok = [s for s in shards if s["status"] in ("ok", "failed")]
@@ -794,6 +807,7 @@ def check_property(prop_id, tier, spec, seed):
                   max_rss_mb=max([s.get("rss_mb") or 0 for s in shards] + [0]),
                   translation_validation=dict(programs=tv_total["programs"], jobs=tv_total["jobs"], disagreements=len(tv_total["disagreements"]), samples=tv_total["samples"][:3],
                                               what="same nondet value vectors through the harness built by g++ against the real sources and through the translator's C built by gcc; (assertion, outcome) traces compared"),
+                  const_api_coverage=const_cov,
                   known_findings_hit=[k.get("what", "") for (k, s, d) in known_hits],
                   tool_errors=tool_errors[:20],
                   source_tree_hash=tree_hash(),
